@@ -436,6 +436,11 @@ def import_corpus():
     add("define-fun-bool", D + "(define-fun both ((p Bool) (q Bool)) Bool (and p q))(assert (both a (both b c)))")
     add("define-fun-quoted-params", D + "(define-fun g ((|a b| Int) (|c d| Bool)) Int (ite |c d| |a b| x))(assert (= (g y a) z))")
     add("define-fun-used-twice", D + "(define-fun inc ((t Int)) Int (+ t 1))(assert (< (inc x) (inc (inc y))))(assert (= (inc z) 0))")
+    # quantifiers inside the body of a definition with parameters: the body is rewritten when the definition is applied
+    add("define-fun-exists-body", D + "(define-fun below ((t Int)) Bool (exists ((s Int)) (and (< s t) (< x s))))(assert (below y))(assert (not (below x)))")
+    add("define-fun-forall-body", D + "(define-fun cap ((t Int) (p Bool)) Bool (forall ((s Int)) (or p (<= s t) (exists ((r Int)) (< r s)))))(assert (cap y a))")
+    add("define-fun-quantifier-shadows-param", D + "(define-fun g ((t Int)) Bool (and (< t 0) (exists ((t Int)) (> t x))))(assert (g y))")
+    add("define-fun-bool-quantifier", D + "(define-fun ex ((p Bool)) Bool (exists ((q Bool)) (and (or p q) (not (and p q)))))(assert (ex a))(assert (ex (and a b)))")
     add("named-term", D + "(assert (! (or a b) :named n1))(assert (=> n1 c))")
     add("annotation-other", D + "(assert (! (< x y) :weight 3))")
     # numerals by logic
@@ -546,6 +551,11 @@ def reject_corpus():
     add("let-body-out-of-scope", D + "(assert (and (let ((t 1)) (< t x)) (< t y)))")
     add("quantifier-var-out-of-scope", D + "(assert (and (forall ((t Int)) (< t x)) (< t y)))")
     add("define-fun-param-out-of-scope", D + "(define-fun g ((t Int)) Int (+ t 1))(assert (< t x))")
+    add("define-fun-too-many-arguments", D + "(define-fun g ((t Int)) Int (+ t 1))(assert (= (g 1 2) 2))")
+    add("define-fun-too-few-arguments", D + "(define-fun g ((t Int) (s Int)) Int (+ t s))(assert (= (g 1) 2))")
+    add("define-fun-constant-applied", D + "(define-fun k () Int 7)(assert (= (k 1) 7))")
+    add("define-fun-ill-sorted-argument", D + "(define-fun g ((t Int)) Int (+ t 1))(assert (= (g a) 2))")
+    add("declared-fun-too-many-arguments", D + "(declare-fun h (Int) Int)(assert (= (h 1 2) 2))")
     add("ill-sorted-and", D + "(assert (and a x))")
     add("ill-sorted-plus", D + "(assert (< (+ x a) y))")
     add("assert-non-bool", D + "(assert (+ x y))")
